@@ -152,6 +152,8 @@ def table : List Entry :=
     e "pairing-kilic" "Suite accessors" .fresh,
     e "pairing-circl" "Suite accessors" .fresh,
     e "pairing-gnark" "Suite accessors" .fresh,
+    e "pairing-bn254" "Hash/BLS on a suite with configured tags" .fresh "the tags set by SetDomainG1/G2 are only read (copied into each DST_prime)",
+    e "pairing-kilic" "Hash/BLS on a suite with configured tags" .fresh,
     e "pairing-bn256" "Pair" .fresh "operands cloned before MakeAffine",
     e "pairing-bn256" "ValidatePairing" .fresh,
     e "pairing-bn254" "Pair" .fresh,
